@@ -254,7 +254,9 @@ func (r *runner) run() {
 		byOp[coins[i].op] = &coins[i]
 	}
 	// requested outputs: all but the last are worth ov, the last takes the rest
-	outputs := make([]*wire.TxOut, c.Nout)
+	// (the request slice has spare capacity, as a slice built with append usually has: the authored transaction
+	// must not share memory with it)
+	outputs := make([]*wire.TxOut, c.Nout, c.Nout+3)
 	for i := range outputs {
 		s, err := outScript(c.Otype, i)
 		if err != nil {
@@ -499,6 +501,53 @@ func (r *runner) run() {
 	}
 	r.rep.Inc("signed_and_verified", 1)
 	r.rep.Inc("inputs_verified", len(tx.TxIn))
+
+	// --- the same request slice is used for a second transaction (another change script): the first one stays what it was
+	before := make([]wire.TxOut, len(tx.TxOut))
+	for i, o := range tx.TxOut {
+		before[i] = wire.TxOut{Value: o.Value, PkScript: append([]byte(nil), o.PkScript...)}
+	}
+	changeScript2, err := outScript(c.Ctype, 2_000_000+int(r.id[2]))
+	if err != nil {
+		return
+	}
+	cs2 := &txauthor.ChangeSource{NewScript: func() ([]byte, error) { return changeScript2, nil }, ScriptSize: len(changeScript2)}
+	next2 := 0
+	var total2 btcutil.Amount
+	var ins2 []*wire.TxIn
+	var vals2 []btcutil.Amount
+	var scripts2 [][]byte
+	calls2 := 0
+	source2 := func(target btcutil.Amount) (btcutil.Amount, []*wire.TxIn, []btcutil.Amount, [][]byte, error) {
+		calls2++
+		if calls2 > maxSourceCalls {
+			return 0, nil, nil, nil, errNoTermination
+		}
+		for total2 < target && next2 < len(coins) {
+			cn := &coins[next2]
+			next2++
+			total2 += btcutil.Amount(cn.val)
+			ins2 = append(ins2, wire.NewTxIn(&cn.op, nil, nil))
+			vals2 = append(vals2, btcutil.Amount(cn.val))
+			scripts2 = append(scripts2, cn.script)
+		}
+		return total2, ins2, vals2, scripts2, nil
+	}
+	func() {
+		defer func() { recover() }()
+		_, _ = txauthor.NewUnsignedTransaction(outputs, btcutil.Amount(c.Rate), source2, cs2)
+	}()
+	r.n++
+	same := len(before) == len(tx.TxOut)
+	for i := 0; same && i < len(before); i++ {
+		if tx.TxOut[i].Value != before[i].Value || !bytes.Equal(tx.TxOut[i].PkScript, before[i].PkScript) {
+			same = false
+		}
+	}
+	if !same {
+		r.mismatch("outputs", "the authored transaction changed when the same request slice was used for another transaction: "+r.describe(),
+			"outputs of the first transaction differ afterwards", "unchanged")
+	}
 }
 
 var errNoTermination = errors.New("harness: input source called too often")
